@@ -109,7 +109,7 @@ func genCacheSuite(r *hx.R, tier, scratch, prop string) (*hx.Suite, error) {
 		emit := func(auto bool, history []string) {
 			var o cacheObs
 			if auto {
-				o = settle(cache, fs.dirList(), fs.probeNames(), 3*time.Second, fs.unwatchableDirs())
+				o = settle(cache, fs.dirList(), fs.probeNames(), 10*time.Second, fs.unwatchableDirs())
 			} else {
 				o = observeCache(cache, fs.probeNames(), true)
 			}
@@ -160,7 +160,7 @@ func genCacheSuite(r *hx.R, tier, scratch, prop string) (*hx.Suite, error) {
 		emit := func() {
 			var o cacheObs
 			if auto {
-				o = settleQuiet(cache, fsB.dirList(), fsB.probeNames(), 3*time.Second, fsB.unwatchableDirs())
+				o = settleQuiet(cache, fsB.dirList(), fsB.probeNames(), 10*time.Second, fsB.unwatchableDirs())
 			} else {
 				o = observeCache(cache, fsB.probeNames(), true)
 			}
@@ -170,7 +170,7 @@ func genCacheSuite(r *hx.R, tier, scratch, prop string) (*hx.Suite, error) {
 				Class: "dirs-switch", Key: fsB.term() + fmt.Sprint(len(hist)), Nontrivial: true})
 		}
 		if auto {
-			_ = settle(cache, fsA.dirList(), fsA.probeNames(), 3*time.Second, fsA.unwatchableDirs())
+			_ = settle(cache, fsA.dirList(), fsA.probeNames(), 10*time.Second, fsA.unwatchableDirs())
 		} else {
 			_ = cache.Refresh()
 		}
@@ -209,7 +209,7 @@ func genCacheSuite(r *hx.R, tier, scratch, prop string) (*hx.Suite, error) {
 		cache, _ := cdi.NewCache(cdi.WithSpecDirs(fs.dirList()...), cdi.WithAutoRefresh(auto))
 		var o cacheObs
 		if auto {
-			o = settle(cache, fs.dirList(), fs.probeNames(), 3*time.Second, fs.unwatchableDirs())
+			o = settle(cache, fs.dirList(), fs.probeNames(), 10*time.Second, fs.unwatchableDirs())
 			_ = cache.Configure(cdi.WithAutoRefresh(false))
 		} else {
 			o = observeCache(cache, fs.probeNames(), true)
@@ -276,7 +276,7 @@ func genCacheSuite(r *hx.R, tier, scratch, prop string) (*hx.Suite, error) {
 		emit := func() {
 			var o cacheObs
 			if auto {
-				o = settle(cache, fs.dirList(), fs.probeNames(), 3*time.Second, fs.unwatchableDirs())
+				o = settle(cache, fs.dirList(), fs.probeNames(), 10*time.Second, fs.unwatchableDirs())
 			} else {
 				o = observeCache(cache, fs.probeNames(), true)
 			}
@@ -340,7 +340,7 @@ func genCacheSuite(r *hx.R, tier, scratch, prop string) (*hx.Suite, error) {
 		emit := func() {
 			var o cacheObs
 			if auto {
-				o = settle(cache, fs.dirList(), fs.probeNames(), 3*time.Second, fs.unwatchableDirs())
+				o = settle(cache, fs.dirList(), fs.probeNames(), 10*time.Second, fs.unwatchableDirs())
 			} else {
 				o = observeCache(cache, fs.probeNames(), true)
 			}
@@ -505,10 +505,10 @@ func genCacheSuite(r *hx.R, tier, scratch, prop string) (*hx.Suite, error) {
 			switch {
 			case auto && st == 0 && li%2 == 0:
 				// what the cache answers before anybody asked it to refresh
-				o = settleQuiet(cache, fs.dirList(), probes, 3*time.Second, fs.unwatchableDirs())
+				o = settleQuiet(cache, fs.dirList(), probes, 10*time.Second, fs.unwatchableDirs())
 				autoTotal++
 			case auto:
-				o = settle(cache, fs.dirList(), probes, 3*time.Second, fs.unwatchableDirs())
+				o = settle(cache, fs.dirList(), probes, 10*time.Second, fs.unwatchableDirs())
 				autoTotal++
 			default:
 				var o0 cacheObs
